@@ -161,8 +161,45 @@ def run(ck, facts, tier):
         # walking the quote list itself (`zip(fx_rates)`) reaches the same element as `fx_rates[i]`
         hk2 = dict(hk, **{"@elem": lambda cont: (lambda idx: Poly.atom(("call", "index", (vkey(RATES), idx.key())))) if vkey(cont) == vkey(RATES) else hk["@elem"](cont)})
         built = eval_builders(facts, hk2)
+        if not (isinstance(built.get("edges"), Arr) and isinstance(built.get("rates"), Arr)):
+            built = {}
     except Unsupported as e:
-        ck.fail(r4, "create_initial_edges", "rule could not be established (%s)" % e)
+        built = {}
+    whole = False
+    if not built:
+        # no function could be addressed by role (e.g. the index look-up was hoisted out and the builders take positions): judge the two arrays that
+        # create_fx_array hands to the fill-in, whatever built them. Quote i's pair is the pair of stored quote i, its rate the converted lifted quote i.
+        try:
+            QUOTES = Sym("param", "quotes")
+            capt = {}
+
+            def cap_fill(ev, vals, e):
+                capt["M"], capt["E"] = vals[0], vals[1]
+                return Sym("ctor", "Ok", Sym("bool", "true"))
+            rate_atom = lambda v: Poly.atom(("quote-rate", vkey(v)))
+            hkw = dict(hk, **{FX + "mut_arrays_remaining_elements": cap_fill,
+                              "dual_ops::convert::set_order_clone": lambda ev, vals, e: Sym("lifted", vkey(vals[0])),
+                              "impl std::convert::From<&dual::enums::Number> for dual::dual::Dual>::from": lambda ev, vals, e: rate_atom(vals[0])})
+            cel.Ev(facts, hooks=hkw).apply_fn(FX + "create_fx_array", [CUR, QUOTES, Sym("ctor", "One")], 0)
+            if isinstance(capt.get("M"), Arr) and isinstance(capt.get("E"), Arr):
+                qi = at(QUOTES)
+                subst = [(("quote-rate", vkey(Sym("lifted", vkey(fld(qi, "rate"))))), ("call", "index", (vkey(RATES), Poly.atom("i0").key()))),
+                         (vkey(fld(qi, "pair")), vkey(at(PAIRS))), (vkey(QUOTES), vkey(PAIRS))]
+
+                def renamed(a):
+                    out = Arr(a.dims, a.base)
+                    for w_ in a.writes:
+                        def rk(k):
+                            for old_, new_ in subst:
+                                k = cel.key_subst(k, old_, new_)
+                            return k
+                        out.writes.append({"idx": [cel.KeyVal(rk(vkey(i_))) for i_ in w_["idx"]], "guards": tuple(rk(g_) for g_ in w_["guards"]),
+                                           "loops": tuple((l_[0], rk(l_[1])) for l_ in w_["loops"]), "val": cel.KeyVal(rk(vkey(w_["val"]))), "seq": w_.get("seq", 0)})
+                    return out
+                built = {"edges": renamed(capt["E"]), "rates": renamed(capt["M"])}
+                whole = True
+        except Unsupported as e:
+            ck.fail(r4, "create_initial_edges", "rule could not be established (%s)" % e)
     try:
         e0 = built.get("edges")
         w = unzip(writes_of(e0)) if isinstance(e0, Arr) else {}
@@ -272,8 +309,15 @@ def run(ck, facts, tier):
         for bname, _roles, kinds in init_builders(facts):
             bh[bname] = (lambda ev, vals, e, kinds=kinds: (fresh[kinds[0]]() if len(kinds) == 1 else Tup([fresh[k_]() for k_ in kinds])))
         hk5 = dict(hk, **bh)
-        hk5.update({FX + "mut_arrays_remaining_elements": lambda ev, vals, e: cel.Alt([(FILL_OK, Sym("ctor", "Ok", Sym("bool", "true"))),
-                                                                                                     (("not", FILL_OK), Sym("ctor", "Err", Sym("fill-error")))]),
+        handed = {}
+
+        def fill_hook(ev, vals, e, handed=handed):
+            handed["M"] = vals[0]
+            return cel.Alt([(FILL_OK, Sym("ctor", "Ok", Sym("bool", "true"))), (("not", FILL_OK), Sym("ctor", "Err", Sym("fill-error")))])
+        conv5 = lambda ev, vals, e: Poly.atom(("conv", vkey(vals[0])))
+        hk5.update({"impl std::convert::From<&dual::enums::Number> for f64>::from": conv5, "impl std::convert::From<&dual::enums::Number> for dual::dual::Dual>::from": conv5,
+                    "impl std::convert::From<&dual::enums::Number> for dual::dual::Dual2>::from": conv5})
+        hk5.update({FX + "mut_arrays_remaining_elements": fill_hook,
                           "dual_ops::convert::set_order_clone": lambda ev, vals, e: Sym("lifted", *[vkey(v) for v in vals])})
         try:
             got = cel.Ev(facts, hooks=hk5).apply_fn(fn, [CUR, RATES, Sym("ctor", order)], 0)
@@ -284,12 +328,27 @@ def run(ck, facts, tier):
                 by[dict(c).get(FILL_OK[1])] = v
             g_ok, g_err = by.get(True), by.get(False)
             ok = isinstance(g_ok, Sym) and g_ok.tag[:2] == ("ctor", "Ok") and isinstance(g_ok.tag[2], Sym) and g_ok.tag[2].tag[:2] == ("ctor", variant) and \
-                isinstance(g_ok.tag[2].tag[2], Arr) and g_ok.tag[2].tag[2].name == "M0"
+                isinstance(g_ok.tag[2].tag[2], Arr) and (g_ok.tag[2].tag[2].name == "M0" or g_ok.tag[2].tag[2] is handed.get("M"))
             ok = ok and isinstance(g_err, Sym) and g_err.tag[:2] == ("ctor", "Err") and "fill-error" in repr(vkey(g_err)) and len(by) == 2
             ck.check(r5, "create_fx_array[%s]" % order, ok, "create_fx_array(%s) does not return Ok(NumberArray2::%s(filled matrix)) with the fill-in's error propagated by ?"
                      % (order, variant), where, detail=cel.vfmt(got)[:300], sample="mut_arrays_remaining_elements(..)?; Ok(%s(matrix))" % variant)
         except Unsupported as e:
             ck.fail(r5, "create_fx_array[%s]" % order, "rule could not be established (%s)" % e, where)
+
+    # ---------------- R09.8 capacity of the completion counter
+    r8 = ck.rule("R09.8", "the completion test sums the 0/1 edge matrix in its element type and compares it with n*n cast to that type: the type must represent n*n "
+                          "for every market a user can build — at least the ~180 currencies of ISO 4217 (i16 reaches n = 181; a narrower type silently caps the market size)", floor=1)
+    rr = facts.fn(FX + "mut_arrays_remaining_elements")
+    ety = None
+    if rr is not None:
+        for t in rr.get("sig", []):
+            m_ = re.search(r"&mut ([iu](?:8|16|32|64|128|size))>", t)
+            if m_ and "Dim<[usize; 2]>" in t and not re.search(r"&mut (f64|T)>", t):
+                ety = m_.group(1)
+    bits = {"i8": 7, "u8": 8, "i16": 15, "u16": 16, "i32": 31, "u32": 32, "i64": 63, "u64": 64, "isize": 63, "usize": 64, "i128": 127, "u128": 128}
+    cap = int(((1 << bits[ety]) - 1) ** 0.5) if ety in bits else 0
+    ck.check(r8, "edge-count-capacity", cap >= 180, "the edge matrix is summed in `%s`: n*n overflows from n = %d currencies on (the completion test aborts or never holds)" % (ety, cap + 1),
+             "%s:%d" % (rr["file"], rr["line"]) if rr else None, sample="element type %s holds n*n up to n = %d" % (ety, cap))
 
     # ---------------- R09.6 lookup
     r6 = ck.rule("R09.6", "rate(lhs, rhs) reads [index_of(lhs), index_of(rhs)] of the matrix in all three variants (None if a currency is unknown)", floor=3)
